@@ -458,7 +458,19 @@ func (x *Exec) doReturn(st *State, vals []Val, pos token.Pos) {
 		if label == "" {
 			label = fmt.Sprintf("c%d", i+1)
 		}
-		x.oblige(st, "check", fmt.Sprintf("%s@ret%d", label, rn), cenv.evalBool(ck.Cl.E), pos, ck.Cl.Src)
+		ct := cenv.evalBool(ck.Cl.E)
+		ost := st
+		if len(ck.By) > 0 {
+			// explicit lemma applications: hypotheses of this check only
+			ost = st.clone()
+			for _, call := range ck.By {
+				ost.assume(x.lemmaInstance(cenv, call))
+			}
+		}
+		x.oblige(ost, "check", fmt.Sprintf("%s@ret%d", label, rn), ct, pos, ck.Cl.Src)
+		// asserted, hence available to the later checks and to the
+		// postconditions at this return
+		st.assume(ct)
 	}
 	for i, en := range x.fc.Ensures {
 		label := en.Label
